@@ -308,8 +308,11 @@ def write_evidence(prop, tier, seed, build_res, coverage, assumptions, wall, vio
     cov["broken"] = build_res.broken
     ev = {"property_id": prop, "tier": tier, "seed": seed, "level": "proof", "coverage": cov,
           "assumptions": assumptions, "wall_s": round(wall, 2), "violations": violations}
-    os.makedirs(os.path.join(VERIF, "evidence"), exist_ok=True)
-    with open(os.path.join(VERIF, "evidence", f"{prop}.json"), "w") as fh:
+    # runs against another tree (VERIF_REPO: seeded changes) must not overwrite the evidence of /repo
+    evdir = os.environ.get("VERIF_EVIDENCE_DIR") or os.path.join(
+        VERIF, "evidence" if os.path.realpath(REPO) == "/repo" else "evidence_other_tree")
+    os.makedirs(evdir, exist_ok=True)
+    with open(os.path.join(evdir, f"{prop}.json"), "w") as fh:
         json.dump(ev, fh, indent=1, default=str)
 
 # --------------------------------------------------------------------------- source fingerprints
